@@ -197,8 +197,9 @@ func init() {
 			contents = []string{"x"}
 		}
 		states := append(fsUniverse(contents), fsProbeStates()...)
+		states = append(states, fsLinkStates()...)
 		reqs := fsRequests(quick)
-		r.Rule = fmt.Sprintf("the C01 universe (%d states x %d requests) plus, per state, PUT/DELETE with every (If-Match, If-None-Match) pair over {unset,*,current,other,stale,unquoted,weak,empty-quoted} on every path, plus PUT of a 4-byte body whose reader fails at every offset 0..4 x 4 chunkings x {unexpected EOF, context cancelled}; non-trivial = answered >= 400 (the oracle applies); distinct by (tree, request)", len(states), len(reqs))
+		r.Rule = fmt.Sprintf("the C01 universe (%d states, among them trees holding symbolic links, x %d requests) plus, per state, PUT/DELETE with every (If-Match, If-None-Match) pair over {unset,*,current,other,stale,unquoted,weak,empty-quoted} on every path, plus PUT of a 4-byte body whose reader fails at every offset 0..4 x 4 chunkings x {unexpected EOF, context cancelled}; non-trivial = answered >= 400 (the oracle applies); distinct by (tree, request)", len(states), len(reqs))
 		r.Explanation = "model-free oracle on the same explicit-state exploration as C01: whenever the real handler answers >= 400 the directory tree read back from disk (every entry, so stray temporary files count) must be identical to the tree before the request"
 		r.Assumptions = []string{"a failing disk (injected OS errors) is outside the property's quantifier"}
 		exploreFSx(r, states, reqs, c02Extra(quick), func(v *fsVisit) {
